@@ -121,6 +121,14 @@ def sources(src: int, e0: int, e1: int, e2: int, e3: int, v0: int, v1: int, v2: 
             es = [e0, e1, e2, e3][:n]
             source = [hx.pick(_ELEMS, e) for e in es]
             want = list(source)
+            # known finding F7 (class): the values are numbers and None only, at least one of each - pandas then builds a
+            # float column and None is stored as NaN.  The property obligations decide everything outside that class.
+            in_f7 = all(e in (0, 2, 4) for e in es) and any(e == 4 for e in es) and any(e != 4 for e in es)
+            mode = hx.P.get('mode', 'outside')
+            if in_f7 != (mode != 'outside'):
+                return hx.end(True)
+            if in_f7:
+                hx.reach('none_among_numbers')
             if hx.P.get('alias'):
                 import warnings
                 warnings.simplefilter("ignore")
@@ -140,8 +148,13 @@ def sources(src: int, e0: int, e1: int, e2: int, e3: int, v0: int, v1: int, v2: 
             return hx.end(hx.fail("component length", got=len(col), exp=n))
         for i in range(n):
             a, b = col[i], want[i]
-            same = (a is b) or (type(a) is type(b) and a == b) or (isinstance(b, int) and not isinstance(b, bool) and
-                                                                 isinstance(a, (int, np.integer)) and not isinstance(a, bool) and a == b)
+            # the same object, an equal value of the same type, or - for numbers - the same numeric value (a column of
+            # numbers may come back as numpy integers / floats of equal value)
+            same = (a is b) or (type(a) is type(b) and a == b) or (
+                isinstance(b, (int, float)) and not isinstance(b, bool) and
+                isinstance(a, (int, float, np.integer, np.floating)) and not isinstance(a, bool) and a == b)
+            if not same and src == 1 and hx.P.get('mode') == 'recorded' and b is None and isinstance(a, float) and a != a:
+                continue                  # F7, recorded behaviour: exactly the None cells hold NaN
             if not same:
                 return hx.end(hx.fail("cell %d does not hold its source's value" % i, got=repr(a), exp=repr(b),
                                       source_kind=["callable", "list", "ndarray", "ConstantGenerator", "nesting callable"][src]))
@@ -321,6 +334,11 @@ def obligations(tier):
           [{"world": "line", "src": 1, "mut": 1, "alias": True}] + [{"world": w, "src": 0, "sized_callable": True} for w in ("line", "grid")],
           labels=("callable", "list", "ndarray", "constant", "nested"), labels_for=lambda p: (("callable", "list", "ndarray", "constant", "nested")[p["src"]],),
           timeout=1200, encoded=enc),
+        X("none_among_numbers.prop", sources, parts=[{"world": "line", "src": 1, "mut": 0, "mode": "prop"}], labels=("none_among_numbers",),
+          labels_for=lambda p: ("none_among_numbers",), timeout=600, encoded=enc, role="finding_prop", finding="F7"),
+        X("none_among_numbers.recorded", sources, parts=[{"world": w, "src": 1, "mut": 0, "mode": "recorded"} for w in ("line", "grid")],
+          labels=("none_among_numbers",), labels_for=lambda p: ("none_among_numbers",), timeout=600, encoded=enc,
+          role="finding_recorded", finding="F7"),
         X("history", history, parts=[{"world": w, "k": k} for w in (("line", "grid") if tier == "quick" else worlds)
                                      for k in ((2,) if tier == "quick" else (2, 3))],
           labels=("added", "removed", "remove_rejected", "add_failed"), timeout=1200, encoded=enc),
